@@ -131,6 +131,20 @@ func c11(r *Report) {
 			bi, okI := in[k]
 			bo, okO := out[k]
 			r.Sites++
+			if okI && !okO && len(codec(calleesIn(w, bi))) == 0 {
+				// the identity encoding: nothing to undo inbound, so an outbound switch without a
+				// default that simply has no (or an empty) case for it re-emits the bytes as they are
+				hasPanic := false
+				for _, inn := range instrs(em) {
+					if p, isP := inn.(*ssa.Panic); isP && p.Pos().IsValid() {
+						hasPanic = true
+					}
+				}
+				if !hasPanic {
+					r.Hold("table", "codec pair for "+name, "identity: no codec inbound, no case needed outbound (the switch has no panicking default)", ad.Pos())
+					continue
+				}
+			}
 			if !okI || !okO {
 				r.Fail("table", "codec pair for "+name, fmt.Sprintf("encoding %s has no case in the %s switch: compressed messages panic or pass through undecoded", name, map[bool]string{true: "outbound", false: "inbound"}[okI]), nil, ad.Pos())
 				continue
@@ -357,11 +371,37 @@ func c11(r *Report) {
 		if encBlock == nil {
 			okCodec = false
 		} else {
-			want := strings.Join(ctrlConds(encBlock), " & ")
+			// on the paths where the compressed flag was read as set (branches on the same,
+			// unmodified field are correlated), the flag value 1 is reached only through
+			// the switch over adapter.encoding
+			g := G(em)
+			skip := contradictsField(em, "compressed", true)
+			isEnc := func(i ssa.Instruction) bool { v, ok := i.(ssa.Value); return ok && isEncodingLoad(v) }
 			for _, fo := range flagOne {
-				if got := strings.Join(ctrlConds(fo.Block()), " & "); got != want {
+				target := fo
+				if p := g.PathToE([]ssa.Instruction{g.Entry()}, true, isEnc, func(i ssa.Instruction) bool { return i == target }, skip); p != nil {
 					okCodec = false
 				}
+			}
+		}
+		// and the converse: a message whose flag was read as clear is re-emitted as it is; no
+		// encoder is reachable on the paths where the compressed field is false
+		{
+			g := G(em)
+			skipF := contradictsField(em, "compressed", false)
+			n := 0
+			for _, c := range calls(em) {
+				nm := calleeName(c)
+				if !(strings.HasPrefix(nm, "compress/") || strings.HasPrefix(nm, "github.com/golang/snappy.")) || !(strings.Contains(nm, ".NewWriter") || strings.Contains(nm, ".NewBufferedWriter") || strings.HasSuffix(nm, ".Encode")) {
+					continue
+				}
+				n++
+				target := ssa.Instruction(c)
+				p := g.PathToE([]ssa.Instruction{g.Entry()}, true, nil, func(i ssa.Instruction) bool { return i == target }, skipF)
+				r.Decide("path", "(*M/h2/grpc.emitter).Message: "+site(em, c)+" runs only for a message flagged compressed", p == nil, "unreachable when the compressed flag read was clear", "the encoder also runs for a message whose compressed flag was clear (e.g. selected by the stream's encoding alone): the message goes out compressed but flagged uncompressed, and the peer cannot read it", c.Pos())
+			}
+			if n == 0 {
+				r.Undecided("(*M/h2/grpc.emitter).Message: encoders", "UNRESOLVED: no encoder call found")
 			}
 		}
 		r.Decide("path", "a message is flagged compressed only after passing the codec switch", okCodec, "every path to the flag value 1 passes the switch over adapter.encoding", "some messages (e.g. empty ones) skip the compressor but are still flagged compressed: the peer cannot decode them", em.Pos())
